@@ -468,6 +468,34 @@ def element_case(ctx, vocab, kind, mode, store, flavour, case_seed):
         grp = [p, q] if q and q in chosen else [p]
         done.update(grp)
         steps.append(grp)
+    # (done on the element as built, before its other properties - its type among them - are set to arbitrary values)
+    # the name, set back to a value the handle has seen before: (a) the name is changed with set_property (which leaves what the
+    # handle itself remembers alone) or through a second handle of the element, (b) the first name is assigned again through the
+    # first handle - by attribute or rename().  Reading it back gives the name assigned last.
+    try:
+        orig = el.get_property('name')
+        if isinstance(orig, str) and 0 < len(orig) < 200:
+            tmp = orig + 'x'
+            route = rng.choice(['set_property', 'second-handle'])
+            if route == 'set_property':
+                el.set_property('name', tmp)
+            else:
+                type(el)(name=orig, node_id=el.node_id, topo=topo).name = tmp
+            back = rng.choice(['attribute', 'rename'])
+            if back == 'attribute':
+                el.name = orig
+            else:
+                el.rename(orig)
+            ctx.count('clause:name-set-back-get')
+            got = el.get_property('name')
+            if got != orig:
+                ctx.violation(f'C02/name-set-back-get:{K}', 'setting a property on a model element and reading it back returns an equal '
+                              'value - the name assigned last, whatever the handle remembered',
+                              dict(case, first=orig, changed_to=tmp, changed_through=route, assigned_back_through=back, observed=got))
+    except Exception as e:
+        ctx.violation(f'C02/name-set-back-raises:{K}:{type(e).__name__}', 'renaming an element back to its first name must not raise',
+                      dict(case, exception=f'{type(e).__name__}: {str(e)[:300]}',
+                           where=[f'{f.filename.split("/")[-1]}:{f.lineno} {f.name}' for f in __import__('traceback').extract_tb(e.__traceback__)[:14]]))
     init = snapshot(topo, el, kind)
     expected = dict(init)
     trace = []
@@ -562,32 +590,6 @@ def element_case(ctx, vocab, kind, mode, store, flavour, case_seed):
             ctx.violation(f'C02/set-raises:{K}.{"+".join(grp)}:{type(e).__name__}',
                           'set_property/get_property with a value the sliver setter accepts must not raise',
                           dict(case, properties=grp, exception=f'{type(e).__name__}: {str(e)[:300]}', second_write=True))
-    # the name, set back to a value the handle has seen before: (a) the name is changed with set_property (which leaves what the
-    # handle itself remembers alone) or through a second handle of the element, (b) the first name is assigned again through the
-    # first handle - by attribute or rename().  Reading it back gives the name assigned last.
-    try:
-        orig = el.get_property('name')
-        if isinstance(orig, str) and 0 < len(orig) < 200:
-            tmp = orig + 'x'
-            route = rng.choice(['set_property', 'second-handle'])
-            if route == 'set_property':
-                el.set_property('name', tmp)
-            else:
-                type(el)(name=orig, node_id=el.node_id, topo=topo).name = tmp
-            back = rng.choice(['attribute', 'rename'])
-            if back == 'attribute':
-                el.name = orig
-            else:
-                el.rename(orig)
-            ctx.count('clause:name-set-back-get')
-            got = el.get_property('name')
-            if got != orig:
-                ctx.violation(f'C02/name-set-back-get:{K}', 'setting a property on a model element and reading it back returns an equal '
-                              'value - the name assigned last, whatever the handle remembered',
-                              dict(case, first=orig, changed_to=tmp, changed_through=route, assigned_back_through=back, observed=got))
-    except Exception as e:
-        ctx.violation(f'C02/name-set-back-raises:{K}:{type(e).__name__}', 'renaming an element back to its first name must not raise',
-                      dict(case, exception=f'{type(e).__name__}: {str(e)[:300]}'))
     expected = snapshot(topo, el, kind)
     # unset one by one
     dflt = defaults(kind)
